@@ -12,7 +12,7 @@ use std::io::Write;
 use std::process::{Command, Stdio};
 use std::time::Instant;
 
-pub const VERIF: &str = "/verif";
+pub const VERIF: &str = match option_env!("DST_VERIF_DIR") { Some(d) => d, None => "/verif" };
 
 #[derive(Serialize, Deserialize, Clone, Debug)]
 pub struct Replay {
@@ -67,6 +67,8 @@ pub struct WorkerStats {
     pub hashes: Vec<(u64, u64)>,
     pub leaked_threads: u64,
     pub lib_panics: u64,
+    #[serde(default)]
+    pub stopped_early: bool,
 }
 
 pub fn tier_of(s: &str) -> Tier {
@@ -131,6 +133,7 @@ pub fn worker(prop: &str, tier: Tier, verif_seed: u64, start: u64, end: u64, str
     let announce = c.crash_is_violation();
     let mut index = start;
     let mut sigs_seen: BTreeSet<String> = BTreeSet::new();
+    let mut violating_runs = 0u64;
     let stdout = std::io::stdout();
     while index < end {
         if announce {
@@ -183,6 +186,9 @@ pub fn worker(prop: &str, tier: Tier, verif_seed: u64, start: u64, end: u64, str
             .count() as u64;
         let leaked = out.report.threads.iter().filter(|t| !t.finished).count() as u64;
         st.leaked_threads += leaked;
+        if !v.violations.is_empty() {
+            violating_runs += 1;
+        }
         for viol in v.violations {
             let key = format!("{}|{}", viol.clause, viol.signature);
             // keep the first few per signature (smallest scenarios are found by minimisation later)
@@ -193,6 +199,12 @@ pub fn worker(prop: &str, tier: Tier, verif_seed: u64, start: u64, end: u64, str
             }
         }
         index += stride;
+        if violating_runs >= 25 {
+            // enough evidence of a violation: the verdict is decided, stop exploring
+            st.stopped_early = true;
+            index = end;
+            break;
+        }
         if st.leaked_threads > 1500 {
             break; // recycle this process: leaked (blocked-for-ever) threads pile up
         }
@@ -230,6 +242,7 @@ fn merge(into: &mut WorkerStats, s: WorkerStats) {
     into.choice_points += s.choice_points;
     into.max_threads = into.max_threads.max(s.max_threads);
     into.leaked_threads += s.leaked_threads;
+    into.stopped_early |= s.stopped_early;
     into.lib_panics += s.lib_panics;
     for (k, n) in s.outcomes {
         *into.outcomes.entry(k).or_insert(0) += n;
@@ -755,7 +768,7 @@ pub fn check(o: &CheckOpts) -> i32 {
         return 2;
     }
     let st = &main.stats;
-    if st.runs > 50 && st.inconclusive * 100 > st.runs {
+    if st.runs > 50 && st.inconclusive * 100 > st.runs && st.violations.is_empty() && main.crashes.is_empty() {
         eprintln!(
             "harness error: {} of {} runs inconclusive (> 1 %): {:?}",
             st.inconclusive, st.runs, st.inconclusive_sample
@@ -913,6 +926,7 @@ pub fn check(o: &CheckOpts) -> i32 {
             "exercised": st.tags,
             "scheduler_mix": st.strategies,
             "inconclusive": st.inconclusive,
+            "stopped_early_after_violations": st.stopped_early,
             "inconclusive_sample": st.inconclusive_sample,
             "determinism_selfcheck": {"runs": ha.len(), "layouts": 2, "mismatches": 0},
             "library_panics_seen": st.lib_panics,
